@@ -1,10 +1,11 @@
-(* T20 / Good: when every regular member of the archive is EMPTY the twin satisfies the state hypothesis [Good] of the T02
-   theorems (single-caller behaviour = reference filesystem), so [T02_history] applies to every history on the twin and,
-   through the simulation, to the opened foreign archive: every call returns the reference outcome, started from the
-   namespace of the tree.
-   With a NON-EMPTY regular member [Good] is false ([sizes_ok]: the foreign row has no STFS.UncompressedSize record and a
-   size > 0) and the behaviour does depart from the reference: a metadata update (Chmod, Chown, Chtimes, Rename of the
-   member or of a directory above it) of an original non-empty member stores size 0 (Proofs/T20Counter.v). *)
+(* T20 / Good: the twin of EVERY well-formed tree (sizes below 10^40, the bound of the T02 theorems) satisfies the state
+   hypothesis [Good] of the T02 theorems (single-caller behaviour = reference filesystem), so [T02_history] applies to every
+   history on the twin and, through the simulation, to the opened foreign archive: every call returns the reference outcome,
+   started from the namespace of the tree.
+   [sizes_ok] (Proofs/T02Db.v) asks of a row WITHOUT the record STFS.UncompressedSize only that its size is below 10^40
+   (a foreign row: the size of its tape header); with the record, that it decodes to the stored size.  A metadata update
+   or a move of a foreign non-empty member writes a content-less record to which [keep_size] adds the record from the
+   known size, so the replay stores that size again (before the fix it stored 0: the former Proofs/T20Counter.v). *)
 From Coq Require Import List NArith ZArith Bool Lia.
 From Coq Require Import ZifyN ZifyBool.
 Import ListNotations.
@@ -94,9 +95,10 @@ Proof.
 Qed.
 
 (* ---------- [Good] *)
-Definition empty_files (t : tree) : Prop := Forall (fun i => i_dir i = false -> clen (i_data i) = 0) (items t).
+(* the sizes of the regular members are below 10^40 (the size record is rendered with 40 digits at most) *)
+Definition sizes_bounded (t : tree) : Prop := Forall (fun i => i_dir i = false -> clen (i_data i) < 10 ^ 40) (items t).
 
-Theorem T20_twin_Good : forall c st t, plain c -> 0 < c_rs c -> wf_style st -> style_root st = [] -> wf t -> empty_files t ->
+Theorem T20_twin_Good : forall c st t, plain c -> 0 < c_rs c -> wf_style st -> style_root st = [] -> wf t -> sizes_bounded t ->
   Good true c (twin c st t).
 Proof.
   intros c st t HP Hrs Hs Hsr Hwf He. split; [split|].
@@ -104,7 +106,7 @@ Proof.
   - cbn [twin db rows]. unfold twin_rows, archive_rows, sizes_ok. apply Forall_forall. intros r Hr.
     apply in_map_iff in Hr as (r0 & <- & Hr0). apply in_map_iff in Hr0 as (x & <- & Hx).
     assert (Hxi : In (snd x) (items t)) by (rewrite <- (istarts_snd (items t) 0); apply in_map; exact Hx).
-    unfold empty_files in He. rewrite Forall_forall in He. specialize (He _ Hxi).
+    unfold sizes_bounded in He. rewrite Forall_forall in He. specialize (He _ Hxi).
     unfold size_ok. change (r_pax (abs_row (srow st (c_rs c) x))) with (@nil (str * str)). cbn [pax_get].
     change (r_size (abs_row (srow st (c_rs c) x))) with (if i_dir (snd x) then 0 else clen (i_data (snd x))).
     destruct (i_dir (snd x)); [reflexivity|apply He; reflexivity].
@@ -137,7 +139,7 @@ Qed.
 
 (* ---------- the opened foreign archive against the reference filesystem started from the tree *)
 Theorem T20_foreign_reference : forall c st t h, plain c -> 0 < c_rs c -> c_readonly c = false ->
-  wf_style st -> style_root st = [] -> wf t -> empty_files t ->
+  wf_style st -> style_root st = [] -> wf t -> sizes_bounded t ->
   let sr := opened c (archive_of st t) in
   let sa := twin c st t in
   ok_run c sa h ->                        (* every call meets the reference's precondition in the state it is issued in *)
